@@ -315,6 +315,21 @@ func errMayBeNil(v ssa.Value, at *ssa.BasicBlock, depth int) bool {
 		return false
 	case *ssa.MakeInterface:
 		return false
+	case *ssa.Extract:
+		// the error result of a helper of the module that never returns a nil error there
+		if cl, ok := x.Tuple.(*ssa.Call); ok {
+			if sc := cl.Call.StaticCallee(); sc != nil && len(sc.Blocks) > 0 && sc != at.Parent() && depth < 3 {
+				never := true
+				for _, r := range returnsOf(sc) {
+					if x.Index >= len(r.Results) || errMayBeNil(returnedValue(r, x.Index), r.Block(), depth+3) {
+						never = false
+					}
+				}
+				if never && len(returnsOf(sc)) > 0 {
+					return false
+				}
+			}
+		}
 	}
 	return true
 }
